@@ -311,6 +311,25 @@ def one_run(ctx, corr):
     got = [r[:9] for r in i_tr]
     if len(pub) != len(got) or any(a[:5] != b[:5] or not all(same(float(u), float(v)) for u, v in zip(a[5:], b[5:])) for a, b in zip(pub, got)):
         ctx.witness("C18.2", {"kind": "trade_table"}, "trade table has %d rows, %d trades were published; first difference %s" % (len(got), len(pub), next(((a, b) for a, b in zip(pub, got) if a != b), None)), rp)
+    # a position the system closes out (a futures contract held into its expiry) is a trade like any other: it must be in the report's trade table
+    prev_acc = None
+    for k_, e in tr.events:
+        if k_ == "POST_AFTER_TRADING":
+            prev_acc = e["accounts"]
+        elif k_ == "POST_SETTLEMENT" and prev_acc is not None and "FUTURE" in prev_acc and "FUTURE" in e["accounts"]:
+            day8 = B.d8(e["cal"].date())
+            after = {h["id"]: h for h in e["accounts"]["FUTURE"]["holdings"]}
+            for h in prev_acc["FUTURE"]["holdings"]:
+                for sd in ("long", "short"):
+                    q0 = h[sd]["qty"]
+                    q1 = after.get(h["id"], {sd: {"qty": 0}})[sd]["qty"]
+                    if q0 and not q1 and e["accounts"]["FUTURE"]["holdings"]:      # (an emptied account is a forced liquidation, not a close-out)
+                        rows = [r for r in i_tr if r[2] == h["id"] and (r[1] in (0, None, "None", "")) and float(r[5]) == float(q0)]
+                        ctx.stats["expiry_closeouts_checked"] += 1
+                        if not rows:
+                            ctx.witness("C18.2", {"kind": "closeout_missing_from_trade_table"}, "%s: the %s position of %s lots in %s was closed out by the system at the settlement of %s, "
+                                        "the report's trade table has no such trade (rows for the contract: %s)" % (day8, sd, q0, h["id"], day8, [r for r in i_tr if r[2] == h["id"]][-3:]), rp)
+            prev_acc = None
     if final:
         nav = final["nav"]
         if not same(float(summ["total_returns"]), nav - 1) or not same(float(summ["unit_net_value"]), nav):
